@@ -38,6 +38,14 @@ _CMP = {
 }
 
 MAX_DEPTH = 60
+_TAGS = {
+    "const", "param", "global", "builtin", "attr", "call", "binop", "unary", "cmp", "bool", "sub", "slice", "ifexp", "tuple", "list", "set",
+    "dict", "phi", "update", "setattr", "aug", "mut", "iter", "enumidx", "item", "rec", "comp", "compvar", "func", "unbound", "enter", "exc",
+    "star", "fstr", "unknown", "deep", "root",
+}
+#: helpers larger than this are analysis units of their own (never inlined)
+INLINE_MAX_STMTS = 6
+INLINE_MAX_NODES = 100
 NONE = ("const", None)
 
 
@@ -59,6 +67,13 @@ class Expander:
         self.repo = repo
         self._memo: dict[tuple[str, int], Term] = {}
         self._active: set[tuple[str, int]] = set()
+        #: helpers are transparent: a call of a private, side-effect free package
+        #: function (or self-method) is replaced by its guarded return term
+        self.auto_inline = True
+        #: qualnames that stay opaque (rules anchor on the call itself)
+        self.opaque: set[str] = set()
+        self._inl_ok: dict = {}
+        self._top: ast.AST | None = None
 
     # ------------------------------------------------------------- helpers
     def df(self, func: Func) -> DataFlow:
@@ -74,7 +89,13 @@ class Expander:
         node = self.node_of(func, e)
         if env is None:
             env = self._comp_env(func, e, node)
-        return self.expr(e, func, node, env, 0)
+        # the expression asked for is never replaced by its callee's value (the
+        # caller wants this call); calls nested in it are
+        prev, self._top = self._top, e
+        try:
+            return self.expr(e, func, node, env, 0)
+        finally:
+            self._top = prev
 
     def _comp_env(self, func: Func, e: ast.AST, node: Node | None) -> dict:
         """Bindings of the comprehension variables in scope at ``e``."""
@@ -325,7 +346,12 @@ class Expander:
             kws = []
             for kw in e.keywords:
                 kws.append((kw.arg if kw.arg is not None else "**", X(kw.value)))
-            return ("call", fn, tuple(args), tuple(sorted(kws, key=lambda p: p[0])))
+            ct = ("call", fn, tuple(args), tuple(sorted(kws, key=lambda p: p[0])))
+            if self.auto_inline and e is not self._top:
+                it = self._inline_call(ct, func)
+                if it is not None:
+                    return it
+            return ct
         if isinstance(e, ast.BinOp):
             return ("binop", _BINOP.get(type(e.op), "?"), X(e.left), X(e.right))
         if isinstance(e, ast.UnaryOp):
@@ -454,60 +480,193 @@ class Expander:
         cache[key] = out
         return out
 
+    # ------------------------------------------------------- auto inlining
+    def _inline_target(self, fn: Term, caller: Func):
+        """(callee, bound self term) for a call whose callee is a unique package function."""
+        if fn[0] in ("global", "func") and fn[1] in self.repo.funcs:
+            return self.repo.funcs[fn[1]], None
+        if fn[0] == "attr":
+            base = fn[1]
+            while base[0] in ("mut", "setattr", "update"):
+                base = base[1]
+            if base[0] == "param":
+                owner = self.repo.funcs.get(base[1])
+                if owner is not None and owner.cls is not None and owner.positional and base[2] == owner.positional[0] and not owner.is_static:
+                    m = self.repo.find_method(owner.cls, fn[2])
+                    if m is not None and not m.is_property and not any(fn[2] in sc.methods for sc in self.repo.subclasses(owner.cls.qualname)):
+                        return m, fn[1]
+        return None, None
+
+    def inlinable(self, f: Func, force: bool = False) -> bool:
+        """A private helper without side effects on its arguments, its object or globals,
+        no generator, not recursive, with a body of assignments / if / return only.
+        ``force``: size, name and opacity do not matter (a rule asks for the value)."""
+        q = (f.qualname, force)
+        if q in self._inl_ok:
+            return self._inl_ok[q]
+        ok = self._inlinable(f, force)
+        self._inl_ok[q] = ok
+        return ok
+
+    def _inlinable(self, f: Func, force: bool = False) -> bool:
+        if isinstance(f.node, ast.Lambda):
+            return False
+        if not force and (not f.name.startswith("_") or f.name.startswith("__") or f.qualname in self.opaque):
+            return False
+        if f.is_property or getattr(f.node, "decorator_list", None) and any(not (isinstance(d, ast.Name) and d.id in ("staticmethod", "classmethod")) for d in f.node.decorator_list):
+            return False
+        params = set(f.positional) | set(getattr(f, "kwonly", []) or [])
+        from .dataflow import MUTATING_METHODS, walk_body
+
+        def ok_stmts(body) -> bool:
+            for st in body:
+                if isinstance(st, ast.Expr) and isinstance(st.value, ast.Constant):
+                    continue
+                if isinstance(st, (ast.Return, ast.Pass, ast.Assert)):
+                    continue
+                if isinstance(st, (ast.Assign, ast.AnnAssign, ast.AugAssign)):
+                    tg = st.targets if isinstance(st, ast.Assign) else [st.target]
+                    for t in tg:
+                        for leaf in ast.walk(t):
+                            if isinstance(leaf, (ast.Attribute, ast.Subscript)) and isinstance(leaf.ctx, ast.Store):
+                                r = leaf
+                                while isinstance(r, (ast.Attribute, ast.Subscript)):
+                                    r = r.value
+                                if not isinstance(r, ast.Name) or r.id in params:
+                                    return False
+                    if isinstance(st, ast.AugAssign) and isinstance(st.target, ast.Name) and st.target.id in params:
+                        return False  # may mutate the caller's array in place
+                    continue
+                if isinstance(st, ast.If):
+                    if not ok_stmts(st.body) or not ok_stmts(st.orelse):
+                        return False
+                    continue
+                return False
+            return True
+
+        if not ok_stmts(f.node.body):
+            return False
+        body = [st for st in f.node.body if not (isinstance(st, ast.Expr) and isinstance(st.value, ast.Constant))]
+        if not force and (len(body) > INLINE_MAX_STMTS or sum(1 for st in body for _ in ast.walk(st)) > INLINE_MAX_NODES):
+            return False
+        for n in walk_body(f.node.body):
+            if isinstance(n, (ast.Yield, ast.YieldFrom, ast.Await, ast.Global, ast.Nonlocal, ast.Lambda, ast.FunctionDef)):
+                return False
+            if isinstance(n, ast.Call) and isinstance(n.func, ast.Attribute) and n.func.attr in MUTATING_METHODS:
+                r = n.func.value
+                while isinstance(r, (ast.Attribute, ast.Subscript)):
+                    r = r.value
+                if isinstance(r, ast.Name) and r.id in params:
+                    return False
+            if isinstance(n, ast.Call) and any(kw.arg == "out" for kw in n.keywords):
+                return False
+        return True
+
+    def guarded_return(self, f: Func) -> Term:
+        """Return value of an ``inlinable`` function as a term: ifexp over the branch conditions."""
+        key = (f.qualname, -2)
+        if key in self._memo:
+            return self._memo[key]
+        if key in self._active:
+            return ("rec", "<return>", f.lineno)
+        self._active.add(key)
+        try:
+            cfg = cfg_of(self.repo, f)
+
+            def node_for(st):
+                ns = cfg.node_containing(st.value if isinstance(st, ast.Return) and st.value is not None else getattr(st, "test", st))
+                return ns[0] if ns else None
+
+            def seq(body) -> Term | None:
+                for i, st in enumerate(body):
+                    if isinstance(st, ast.Return):
+                        return self.expr(st.value, f, node_for(st), {}, 0) if st.value is not None else NONE
+                    if isinstance(st, ast.If):
+                        a = seq(st.body)
+                        b = seq(st.orelse)
+                        if a is None and b is None:
+                            continue
+                        rest = seq(body[i + 1:])
+                        if a is None:
+                            a = rest
+                        if b is None:
+                            b = rest
+                        if a is None or b is None:
+                            a = a if a is not None else NONE
+                            b = b if b is not None else NONE
+                        return ("ifexp", self.expr(st.test, f, node_for(st), {}, 0), a, b)
+                return None
+
+            t = seq(f.node.body)
+            if t is None:
+                t = NONE
+        finally:
+            self._active.discard(key)
+        self._memo[key] = t
+        return t
+
+    def _inline_call(self, ct: Term, caller: Func, force: bool = False) -> Term | None:
+        target, bound_self = self._inline_target(ct[1], caller)
+        if target is None or target is caller or not self.inlinable(target, force):
+            return None
+        if any(a[0] == "star" for a in ct[2]) or any(n == "**" for n, _ in ct[3]):
+            return None
+        rt = self.guarded_return(target)
+        if _has_tag(rt, "rec") or _has_tag(rt, "deep"):
+            return None
+        pos = list(target.positional)
+        mapping = {}
+        if bound_self is not None and not target.is_static:
+            if not pos:
+                return None
+            mapping[("param", target.qualname, pos[0])] = bound_self
+            pos = pos[1:]
+        elif bound_self is None and target.cls is not None and not target.is_static:
+            return None
+        if len(ct[2]) > len(pos):
+            return None
+        for p, a in zip(pos, ct[2]):
+            mapping[("param", target.qualname, p)] = a
+        for n, v in ct[3]:
+            mapping[("param", target.qualname, n)] = v
+        # constant defaults
+        node = target.node
+        if isinstance(node, (ast.FunctionDef, ast.AsyncFunctionDef)):
+            allpos = node.args.posonlyargs + node.args.args
+            for a, dflt in zip(allpos[len(allpos) - len(node.args.defaults):], node.args.defaults):
+                if isinstance(dflt, ast.Constant):
+                    mapping.setdefault(("param", target.qualname, a.arg), ("const", dflt.value))
+            for a, dflt in zip(node.args.kwonlyargs, node.args.kw_defaults):
+                if isinstance(dflt, ast.Constant):
+                    mapping.setdefault(("param", target.qualname, a.arg), ("const", dflt.value))
+        mw = lambda m, a, func=caller: self.method_may_write(func, m, a)  # noqa: E731
+        sub = _subst_attr(rt, mapping, mw)
+        if any(s_[0] == "param" and s_[1] == target.qualname for s_ in subterms(sub)):
+            return None
+        return sub
+
     # --------------------------------------------------------------- inlining
-    def inline_calls(self, t: Term, depth: int = 2, only_private: bool = False) -> Term:
-        """Replace calls of package *functions* (module level or nested, not
-        methods dispatched on objects) by their return terms with the parameters
-        substituted: rules see through extracted helpers."""
+    def force_inline(self, t: Term, caller: Func, depth: int = 3) -> Term:
+        """Replace every call of a side-effect free package function in ``t`` (whatever
+        its size or name) by its guarded return value: rules that need the value of a
+        helper that was too large for automatic inlining ask for it explicitly."""
         if depth <= 0 or not isinstance(t, tuple) or not t or not isinstance(t[0], str):
             return t
-        k = t[0]
-        if k in ("const", "param", "global", "builtin", "func", "rec", "unknown", "unbound", "deep", "root", "exc"):
+        if t[0] in ("const", "param", "global", "builtin", "func", "rec", "unknown", "unbound", "deep", "root", "exc"):
             return t
-        if k == "call":
-            fn = t[1]
-            args = tuple(self.inline_calls(a, depth, only_private) for a in t[2])
-            kws = tuple((n, self.inline_calls(v, depth, only_private)) for n, v in t[3])
-            target = None
-            bound_self = None
-            if fn[0] == "global" and fn[1] in self.repo.funcs:
-                target = self.repo.funcs[fn[1]]
-            elif fn[0] == "func" and fn[1] in self.repo.funcs:
-                target = self.repo.funcs[fn[1]]
-            elif fn[0] == "attr" and fn[1][0] == "param":
-                # self._helper(...) / cls._helper(...) inside a class
-                owner = self.repo.funcs.get(fn[1][1])
-                if owner is not None and owner.cls is not None and owner.positional and fn[1][2] == owner.positional[0]:
-                    m = self.repo.find_method(owner.cls, fn[2])
-                    if m is not None and not m.is_property and not self.repo.subclasses(owner.cls.qualname):
-                        target = m
-                        bound_self = fn[1]
-            if target is not None and not isinstance(target.node, ast.Lambda) and not (only_private and not target.name.startswith("_")):
-                rt = self.return_term(target)
-                if not _has_tag(rt, "rec"):
-                    pos = list(target.positional)
-                    mapping = {}
-                    if bound_self is not None and pos and not target.is_static:
-                        mapping[("param", target.qualname, pos[0])] = bound_self
-                        pos = pos[1:]
-                    elif target.is_static and bound_self is not None:
-                        pass
-                    for p, a in zip(pos, args):
-                        mapping[("param", target.qualname, p)] = a
-                    for n, v in kws:
-                        mapping[("param", target.qualname, n)] = v
-                    # defaults are left as parameters
-                    sub = _subst(rt, mapping)
-                    if not any(s_[0] == "param" and s_[1] == target.qualname for s_ in subterms(sub)):
-                        return self.inline_calls(sub, depth - 1, only_private)
-            return ("call", self.inline_calls(fn, depth, only_private) if fn[0] not in ("global", "builtin", "func") else fn, args, kws)
-        return tuple(
-            self.inline_calls(x, depth, only_private) if isinstance(x, tuple) and x and isinstance(x[0], str)
-            else (tuple(self.inline_calls(y, depth, only_private) if isinstance(y, tuple) and y and isinstance(y[0], str)
-                        else (tuple(self.inline_calls(z, depth, only_private) if isinstance(z, tuple) and z and isinstance(z[0], str) else z for z in y) if isinstance(y, tuple) else y)
-                        for y in x) if isinstance(x, tuple) else x)
-            for x in t
-        )
+        t2 = tuple(self._force_inline_any(x, caller, depth) for x in t)
+        if t2[0] == "call":
+            it = self._inline_call(t2, caller, force=True)
+            if it is not None:
+                return self.force_inline(it, caller, depth - 1)
+        return t2
+
+    def _force_inline_any(self, x, caller: Func, depth: int):
+        if isinstance(x, tuple):
+            if x and isinstance(x[0], str) and x[0] in _TAGS:
+                return self.force_inline(x, caller, depth)
+            return tuple(self._force_inline_any(y, caller, depth) for y in x)
+        return x
 
     # ------------------------------------------------------ function values
     def return_term(self, func: Func) -> Term:
@@ -586,13 +745,25 @@ def _subst(t, mapping: dict):
     return tuple(_subst(x, mapping) for x in t)
 
 
+def _subst_attr(t, mapping: dict, may_write=None):
+    """Substitution that re-resolves attribute reads on substituted bases."""
+    if not isinstance(t, tuple):
+        return t
+    if t in mapping:
+        return mapping[t]
+    if t and t[0] == "attr" and len(t) == 3:
+        b = _subst_attr(t[1], mapping, may_write)
+        return mk_attr(b, t[2], may_write) if b is not t[1] and b != t[1] else t
+    return tuple(_subst_attr(x, mapping, may_write) for x in t)
+
+
 def _has_tag(t: Term, tag: str) -> bool:
     return any(s[0] == tag for s in subterms(t))
 
 
 def _project(v: Term, path: tuple[int, ...]) -> Term:
     for i in path:
-        if v[0] in ("tuple", "list") and 0 <= i < len(v[1]) and not any(x[0] == "star" for x in v[1]):
+        if v[0] in ("tuple", "list") and -len(v[1]) <= i < len(v[1]) and not any(x[0] == "star" for x in v[1]):
             v = v[1][i]
         elif v[0] == "phi":
             v = phi(_project(a, (i,)) for a in v[1])
